@@ -509,7 +509,10 @@ func mkPools(rng *rand.Rand, shards int) hPools {
 	v6c := make([]byte, 16)
 	rng.Read(v6c)
 	v6c[0] = 0x20
-	p.ip6 = []string{hx(v6a), hx(v6b), hx(v6c)}
+	// ... and addresses whose form invites confusion with the other family: all-zero low 96 bits (a 4-byte prefix followed
+	// by zero padding), the NAT64 prefix, an address that ends like an IPv4-mapped one without being one
+	shapes := []string{"2001:db8::", "fe80::", "64:ff9b::", "2001:db8::ffff:0a00:0001"}
+	p.ip6 = []string{hx(v6a), hx(v6b), hx(v6c), hx(net.ParseIP(shapes[rng.Intn(len(shapes))]))}
 	p.ports = []int{6881, 6882, 1}
 	return p
 }
